@@ -12,6 +12,21 @@ theorem restarts_bounded (max mw : Nat) (script : List Outcome) (batches : List 
     restartsOK max (runHistory max mw script batches).1.trace = true :=
   Shape.restarts_ok max mw script batches
 
+/-- read off as plain statements: an actor is restarted at most `max` times in its whole life, for
+    every history and crash script, and the k-th restart event carries the number k. -/
+theorem at_most_max_restarts (max mw : Nat) (script : List Outcome) (batches : List (List Msg)) :
+    (restartNumbers (runHistory max mw script batches).1.trace).length ≤ max ∧
+    ∀ k (h : k < (restartNumbers (runHistory max mw script batches).1.trace).length),
+      (restartNumbers (runHistory max mw script batches).1.trace)[k] = k + 1 := by
+  have h := Shape.restarts_ok max mw script batches
+  simp only [restartsOK, Bool.and_eq_true, beq_iff_eq, decide_eq_true_eq] at h
+  refine ⟨h.2, fun k hk => ?_⟩
+  generalize restartNumbers (runHistory max mw script batches).1.trace = ns at h hk
+  have h1 := h.1
+  have : ns[k]? = ((List.range ns.length).map (· + 1))[k]? := by rw [← h1]
+  simp [hk] at this
+  exact this
+
 /-- the next panic terminates it instead: after ActorMaxRestartsExceededEvent the inbox is stopped,
     the actor unregistered, Stopped handled once, ActorStoppedEvent published, and nothing follows. -/
 theorem terminates_cleanly (max mw : Nat) (script : List Outcome) (batches : List (List Msg)) :
